@@ -137,10 +137,15 @@ def case_checks(k, case, res):
         if "export2" in res:
             t2 = "@bind domain fdict (from_dict %s) todict" % FD
             checks.append(("todict2", "res_fdict_sim (%s) %s" % (t2, res_term(res["export2"], coq_fdict)), t2))
-        if case["geo"].get("wellformed") and "ok" in res["dom"]:
-            # hypotheses of the round-trip theorems of Props/C15.v, decided inside Coq
-            t3 = "@bind domain bool %s (fun d => Ok (exportable_b d))" % J
-            checks.append(("wf", "match %s with Ok b => b | Err _ => false end" % t3, t3))
+    if case["geo"].get("wellformed") and "ok" in res.get("export", {}) and not T.pair_overwrite(case):
+        # hypotheses of the round-trip theorems of Props/C15.v, decided inside Coq
+        recs = [em.patch(p["name"], p.get("map"), p["dim"], p["min"], p["max"]) for p in case["patches"]]
+        if case.get("single"):
+            checks.append(("wf", "patch_wf_b %s && domain_beq %s (patch_dom %s)" % (recs[0], doms[0], recs[0]), "patch_wf_b %s" % recs[0]))
+        else:
+            pl = coq_list(recs)
+            t3 = "roundtrip_wf_b %s %s %s" % (pl, cs, coq_str(case["name"]))
+            checks.append(("wf", "%s && list_beq domain_beq %s (map patch_dom %s)" % (t3, ps, pl), t3))
     return "\n".join(em.defs), checks
 
 
@@ -240,7 +245,13 @@ def main(run, replay=None):
     cases = []
     cpath = Path(run.work).parents[1] / "corpus" / "C15.json"
     if replay:
-        cases = [json.load(open(replay))["case"]]
+        rc = json.load(open(replay))["case"]
+        if isinstance(rc, dict) and "case" in rc and "patches" not in rc:
+            rc = rc["case"]
+        cases = [rc] if isinstance(rc, dict) and "patches" in rc else []
+        if not cases:
+            run.report({"kind": "replay"}, "the replay file records a failed obligation / build, not an input case: re-run the tier",
+                       rc, found_input=False, theorem_or_case="replay")
     else:
         if cpath.exists():
             cases += json.load(open(cpath))
@@ -392,7 +403,7 @@ def main(run, replay=None):
         "evaluations": agree + len(disagree),
         "distinct_nontrivial": len(distinct),
         "rule": "one evaluation = one comparison inside Coq of a model output (join, todict, from_dict of the file content, todict of "
-                "the re-read domain, hypothesis check exportable_b) with the output of the real export / from_file / export chain; "
+                "the re-read domain, hypothesis check roundtrip_wf_b / patch_wf_b) with the output of the real export / from_file / export chain; "
                 "non-trivial = the export succeeded; distinct = different file content after canonical JSON hashing",
         "cases": len(cases),
         "traces_validated_against_impl": agree,
